@@ -44,13 +44,24 @@ def gen_field(r: Any, lo: int, hi: int, p_star: float = 0.45) -> str:
         return "*"
     if x < p_star + 0.15:
         return f"*/{r.randint(1, max(1, min(15, hi - lo + 1)))}"
+    if x < p_star + 0.15 + 0.07 * (1 - p_star):
+        # the whole range written out ("1-31", "0-6/2"): matches like "*" but is not a wildcard for the day-of-month / day-of-week rule
+        return f"{lo}-{hi}" + (f"/{r.randint(1, 3)}" if r.random() < 0.4 else "")
     return ",".join(gen_element(r, lo, hi) for _ in range(r.choice([1, 1, 2, 3])))
 
 
 def gen_expr(r: Any, dense: bool = False) -> str:
     """dense=True biases towards expressions that match often (useful in short loop runs)."""
     ps = [0.25, 0.6, 0.7, 0.75, 0.7] if not dense else [0.4, 0.85, 0.9, 0.9, 0.9]
-    return " ".join(gen_field(r, lo, hi, p) for (lo, hi), p in zip(FIELDS, ps))
+    f = [gen_field(r, lo, hi, p) for (lo, hi), p in zip(FIELDS, ps)]
+    if r.random() < 0.08:
+        # day-of-month / day-of-week interplay: one of the two written as its whole range (not a wildcard), the other restricted
+        full, other = (2, 4) if r.random() < 0.5 else (4, 2)
+        lo, hi = FIELDS[full]
+        f[full] = f"{lo}-{hi}" + (f"/{r.randint(1, 2)}" if r.random() < 0.3 else "")
+        if f[other].startswith("*"):
+            f[other] = gen_element(r, *FIELDS[other])
+    return " ".join(f)
 
 
 def field_values(expr: str, lo: int, hi: int) -> set:
